@@ -89,6 +89,8 @@ def gen_plan(run_seed: int, k: int, tier: str) -> dict:
         gsel["P-fold"] = fixed["P-fold"]
     if rng.random() < 0.25:
         gsel["P-cyc"] = fixed["P-cyc"]
+    if rng.random() < 0.2:
+        gsel["P-skip"] = fixed["P-skip"]
     if bundled and rng.random() < 0.5:
         name = rng.choice(sorted(bundled))
         gsel[name] = bundled[name]
